@@ -10,7 +10,7 @@ SEED = int(os.environ.get('VERIF_SEED', '0') or 0)
 TYPES = [None, 'text', 'checkbox', 'radio', 'submit', 'number', 'range', 'date', 'TEXT', 'search', 'email', 'password',
          'tel', 'url', 'button', 'image', 'week', 'time', 'month', 'datetime-local', 'color', 'file', 'reset', 'Radio',
          'SUBMIT', '', 'hidden', 'HIDDEN']
-TYPES_W = TYPES + ['radio'] * 9 + ['checkbox'] * 3 + ['submit'] * 4 + ['number', 'date', 'text'] * 2
+TYPES_W = TYPES + ['radio'] * 9 + ['checkbox'] * 3 + ['submit'] * 4 + ['number', 'date', 'text'] * 2 + ['hidden'] * 4
 RANGE_TYPES = ('date', 'month', 'week', 'time', 'datetime-local', 'number', 'range')
 
 
@@ -56,15 +56,19 @@ def gen_doc(r):
             c = r.choice(['', '\n', 'x', 'שלום'])
             if c:
                 t.append(bs4.NavigableString(c))
-        elif k < 0.86:
+        elif k < 0.84:
             mk('progress', parent, value=r.choice([None, '1']))
-        elif k < 0.93:
+        elif k < 0.94:
             fs = mk('fieldset', parent, disabled=flag(0.5))
             if r.random() < 0.6:
                 lg = mk('legend', fs)
                 control(lg)
             for _ in range(r.choice([1, 2])):
-                control(fs)
+                # controls directly in the fieldset or one / two levels deeper
+                host = fs
+                for _d in range(r.choice([0, 0, 1, 2])):
+                    host = mk(r.choice(['div', 'p', 'span']), host)
+                control(host)
             if r.random() < 0.3:
                 lg2 = mk('legend', fs)
                 control(lg2)
